@@ -203,61 +203,65 @@ def reproduces(plan, violation, timeout=CHILD_TIMEOUT):
     return False, result
 
 
-def minimise(plan, violation, budget_runs=36):
-    """ddmin over the consulted decisions (neutralise), then shrink the input."""
-    plan = copy.deepcopy(plan)
-    probe = copy.deepcopy(plan)
-    probe["_want_consulted"] = True
-    status, result = pool.run_forked(execute, probe, CHILD_TIMEOUT)
-    if status != "ok":
-        return plan, {"minimised": False}
-    if not any(v["signature"] == violation["signature"] and v["oracle"] == violation["oracle"]
-               for v in result["violations"]):
-        return plan, {"minimised": False, "note": "did not reproduce in a fresh child"}
-    consulted = result.get("consulted") or {}
-    budget = [budget_runs]
-    stats = {"minimised": True, "decisions_before": len(consulted)}
+FAMILIES = ["tie/", "dur/", "out/", "lost/", "pop/", "partial/", "cleanup/"]
 
-    # 1. input shrinking first (fewer workers / epochs), it makes everything else cheaper
-    scen = plan["scenario"]
-    nets = scen["nets"].split()
+
+def minimise(plan, violation, budget_runs=24, wall=90.0):
+    """Shrink the input (workers), neutralise decision families, then ddmin single decisions."""
+    t_end = time.monotonic() + wall
+    plan = copy.deepcopy(plan)
+    budget = [budget_runs]
+    stats = {"minimised": True}
+
+    def attempt(cand):
+        if budget[0] <= 0 or time.monotonic() > t_end:
+            return False
+        budget[0] -= 1
+        ok, _ = reproduces(cand, violation)
+        return ok
+
+    ok, result = reproduces(dict(plan, _want_consulted=True), violation)
+    if not ok:
+        return plan, {"minimised": False, "note": "did not reproduce in a fresh child"}
+    stats["decisions_before"] = len(result.get("consulted") or {})
+    # 1. fewer workers
+    nets = plan["scenario"]["nets"].split()
     changed = True
-    while changed and len(nets) > 1 and budget[0] > 0:
+    while changed and len(nets) > 1:
         changed = False
         for i in range(len(nets)):
             cand = copy.deepcopy(plan)
             cand["scenario"]["nets"] = " ".join(nets[:i] + nets[i + 1:])
-            budget[0] -= 1
-            ok, _ = reproduces(cand, violation)
-            if ok:
+            if attempt(cand):
                 plan, nets, changed = cand, nets[:i] + nets[i + 1:], True
                 break
-            if budget[0] <= 0:
-                break
-    # 2. neutralise decision families, then single decisions
-    probe = copy.deepcopy(plan)
-    probe["_want_consulted"] = True
-    status, result = pool.run_forked(execute, probe, CHILD_TIMEOUT)
-    consulted = (result.get("consulted") or {}) if status == "ok" else consulted
-    keys = sorted(k for k in consulted if not k.startswith("tie/"))
-
-    def test(keep):
+    # 2. whole decision families to their neutral defaults
+    neutral = []
+    for fam in FAMILIES:
         cand = copy.deepcopy(plan)
-        cand["neutral"] = sorted(set(keys) - set(keep)) + ["tie/"] * int(ties_neutral[0])
+        cand["neutral"] = neutral + [fam]
+        if attempt(cand):
+            neutral.append(fam)
+            plan = cand
+    # 3. single decisions of the families that matter
+    ok, result = reproduces(dict(plan, _want_consulted=True), violation)
+    consulted = (result.get("consulted") or {}) if ok else {}
+    keys = sorted(k for k in consulted if not any(k.startswith(f) for f in neutral) and not k.startswith("tie/"))
+    if keys and len(keys) <= 400:
+        def test(keep):
+            cand = copy.deepcopy(plan)
+            cand["neutral"] = neutral + sorted(set(keys) - set(keep))
+            return attempt(cand)
+        kept = common.ddmin(keys, test, budget)
+        cand = copy.deepcopy(plan)
+        cand["neutral"] = neutral + sorted(set(keys) - set(kept))
         ok, _ = reproduces(cand, violation)
-        return ok
-
-    ties_neutral = [True]
-    budget[0] -= 1
-    if not test(keys):
-        ties_neutral[0] = False
-    kept = common.ddmin(keys, test, budget)
-    plan["neutral"] = sorted(set(keys) - set(kept)) + ["tie/"] * int(ties_neutral[0])
-    stats["decisions_after"] = len(kept)
+        if ok:
+            plan = cand
+            stats["decisions_after"] = len(kept)
+    stats["neutral_families"] = neutral
     stats["nets_after"] = plan["scenario"]["nets"]
-    ok, _ = reproduces(plan, violation)
-    if not ok:
-        stats["minimised"] = False
+    stats["runs_used"] = budget_runs - budget[0]
     return plan, stats
 
 
@@ -360,10 +364,13 @@ def aggregate(prop, plans, results, report, known):
             if key not in fresh:
                 fresh[key] = (index, v)
     # report (and minimise) each distinct unknown violation class, bounded
-    for n, (key, (index, v)) in enumerate(sorted(fresh.items(), key=lambda kv: kv[1][0])):
+    classes = sorted(fresh.items(), key=lambda kv: kv[1][0])
+    if len(classes) > 12:
+        print(f"{prop}: {len(classes)} distinct violation classes, replay files written for the first 12", flush=True)
+    for n, (key, (index, v)) in enumerate(classes[:12]):
         plan = {k: val for k, val in plans[index].items() if not k.startswith("_")}
         stats = {}
-        if n < 3:
+        if n < 2:
             try:
                 plan, stats = minimise(plan, v)
             except Exception as error:  # minimisation is best effort
